@@ -158,7 +158,12 @@ func (c *Clients) runQUIC(cc *plan.ClientConn, cr *ConnRecord, srv plan.ServerSp
 			st.Write(f)
 			st.Close()
 			st.SetReadDeadline(time.Now().Add(12 * time.Second))
-			all, _ := io.ReadAll(io.LimitReader(st, 1<<17))
+			all, rerr := io.ReadAll(io.LimitReader(st, 1<<17))
+			if rerr != nil && len(all) == 0 {
+				c.mu.Lock()
+				o.Err = rerr.Error()
+				c.mu.Unlock()
+			}
 			// every complete frame on the stream is a response
 			for len(all) >= 2 {
 				l := int(binary.BigEndian.Uint16(all))
